@@ -2,6 +2,7 @@ package main
 
 import (
 	"bufio"
+	"context"
 	"errors"
 	"fmt"
 	"io"
@@ -48,6 +49,35 @@ type scriptErr struct{ i int }
 
 func (e *scriptErr) Error() string { return "scripted error " + strconv.Itoa(e.i) }
 
+// the KIND of a transport error is no concern of the retry loop: the same script is replayed with timeout-flavoured
+// errors (net.Error, Timeout() and Temporary() true) and with errors that wrap the context sentinels
+type timeoutErr struct{ i int }
+
+func (e *timeoutErr) Error() string   { return "scripted i/o timeout " + strconv.Itoa(e.i) }
+func (e *timeoutErr) Timeout() bool   { return true }
+func (e *timeoutErr) Temporary() bool { return true }
+
+type ctxErr struct {
+	i     int
+	inner error
+}
+
+func (e *ctxErr) Error() string { return "scripted " + e.inner.Error() + " " + strconv.Itoa(e.i) }
+func (e *ctxErr) Unwrap() error { return e.inner }
+
+func mkErr(kind, i int) error {
+	switch kind {
+	case 1:
+		return &timeoutErr{i}
+	case 2:
+		if i%2 == 0 {
+			return &ctxErr{i, context.DeadlineExceeded}
+		}
+		return &ctxErr{i, context.Canceled}
+	}
+	return &scriptErr{i}
+}
+
 // line: <id> <n> <delay_us> o0 o1 ...
 func oneRetry(line string) string {
 	f := strings.Fields(line)
@@ -68,6 +98,7 @@ func oneRetry(line string) string {
 	resps := map[*http.Response]int{}
 	errs := map[error]int{}
 	var lastEnd time.Time
+	errKind := 0
 	base := middleware.RoundTripper(func(req *http.Request) (*http.Response, error) {
 		now := time.Now()
 		i := calls
@@ -88,7 +119,7 @@ func oneRetry(line string) string {
 			resps[resp] = i
 		}
 		if o.hasErr {
-			err = &scriptErr{i}
+			err = mkErr(errKind, i)
 			errs[err] = i
 		}
 		lastEnd = time.Now()
@@ -96,7 +127,8 @@ func oneRetry(line string) string {
 	})
 	var sb strings.Builder
 	rt := middleware.RetryMiddleware(n, delay)(base)
-	one := func(suffix string) {
+	one := func(suffix string, kind int, ctxMode int) {
+		errKind = kind
 		defer func() {
 			if r := recover(); r != nil {
 				fmt.Fprintf(&sb, "%s impl panic%s %v\n", id, suffix, r)
@@ -105,7 +137,20 @@ func oneRetry(line string) string {
 		// a fresh request through the SAME middleware instance: the script starts over
 		trace = nil
 		calls = 0
-		req, _ := http.NewRequest("GET", "http://example.invalid/x", nil)
+		// the request's own context is no concern of the loop either (the wrapped transport decides what a done context
+		// means): live, cancelled before the request, or expiring during the first wait
+		ctx := context.Background()
+		switch ctxMode {
+		case 1:
+			c, cancel := context.WithCancel(ctx)
+			cancel()
+			ctx = c
+		case 2:
+			c, cancel := context.WithTimeout(ctx, delay/3+time.Microsecond)
+			defer cancel()
+			ctx = c
+		}
+		req, _ := http.NewRequestWithContext(ctx, "GET", "http://example.invalid/x", nil)
 		resp, err := rt.RoundTrip(req)
 		rs, es := "nil", "nil"
 		if resp != nil {
@@ -117,10 +162,16 @@ func oneRetry(line string) string {
 		}
 		if err != nil {
 			var se *scriptErr
+			var te *timeoutErr
+			var ce *ctxErr
 			if i, ok := errs[err]; ok {
 				es = strconv.Itoa(i)
 			} else if errors.As(err, &se) {
 				es = "wrapped" + strconv.Itoa(se.i)
+			} else if errors.As(err, &te) {
+				es = "wrapped" + strconv.Itoa(te.i)
+			} else if errors.As(err, &ce) {
+				es = "wrapped" + strconv.Itoa(ce.i)
 			} else {
 				es = "foreign"
 			}
@@ -141,10 +192,11 @@ func oneRetry(line string) string {
 		fmt.Fprintf(&sb, "%s impl ret%s resp=%s err=%s\n", id, suffix, rs, es)
 		fmt.Fprintf(&sb, "%s impl trace%s %s\n", id, suffix, strings.Join(trace, " "))
 	}
-	one("")
-	// the middleware keeps no state between requests: a second and third request behave like the first
-	one("2")
-	one("3")
+	one("", 0, 0)
+	// the middleware keeps no state between requests: a second and third request behave like the first -- whatever the
+	// kind of the transport errors and the state of the request's context
+	one("2", 1, 1)
+	one("3", 2, 2)
 	return sb.String()
 }
 
